@@ -1,6 +1,145 @@
-import Asts.Spec.Sync
+import Asts.Proofs.SY_a_Headlines
+import Asts.Proofs.SY_a_Pause
 
-/-! # C11 — property theorems (under construction) -/
+/-! # C11 — deleted and paused sets are left alone, and a pause is lossless
+
+Property theorems only; the lemmas live in `Asts/Proofs/SY_a_*.lean`. `syncF` (`Model/Sync.lean`) is the model of one whole
+`StatefulSetController.sync` + `UpdateStatefulSet`, tied to the Go code by the `sync` engine; `C11paused` and `C11deleting`
+are the monitors of `Spec/Sync.lean`; `round` / `settle` / `applySync` are the round semantics of `Model/World.lean` (tied
+by the `world` engine). All theorems hold for every hashing function, revision store, pod list and fault plan.
+
+The only hypothesis is `StoreNamesOk i` for the store half of `C11deleting`: names are unique in the revision store (one
+namespace of the API). The monitor looks every input revision up *by name* in the final store; with two stored revisions
+of one name and different owners it is false even on an untouched store (`exDup` below). The `Prop` reading
+`deleting_store_keeps` needs it for the same reason. -/
 namespace Asts.C11
+open Asts Asts.SYa
+
+/-! ## (1) paused: no call of any kind -/
+
+/-- a paused set: the sync issues no call (no read, no write), writes no status, leaves the revision store as it is and
+    reports success — whatever state the pods, the revisions and the fault plan are in -/
+theorem paused_sync_is_silent (h : Hashing) (i : SyncIn) (plan : List Fault) (hp : i.paused = true) :
+    (syncF h i plan).log = [] ∧ (syncF h i plan).status = none ∧ (syncF h i plan).store = i.store ∧
+    (syncF h i plan).outcome = .ok ∧ (syncF h i plan).acts = [] := by
+  rw [syncF_paused h i plan hp]; exact ⟨rfl, rfl, rfl, rfl, rfl⟩
+
+/-- **C11, paused**: the monitor is true on the model for every input -/
+theorem C11_paused (h : Hashing) (i : SyncIn) (plan : List Fault) :
+    C11paused i (syncF h i plan).observe = true :=
+  C11paused_holds h i plan
+
+/-! ## (2) a set carrying a deletion timestamp -/
+
+/-- the ingredients: the adoption phase returns at once, the claim decision is keep or ignore, the claim pass logs
+    nothing, the reconcile proper issues no action -/
+theorem deleting_adoption_skipped (plan : List Fault) (fresh : Fresh) (s : RevSt) :
+    adoptOrphanRevisionsF plan true fresh s = (s, .ok) :=
+  adoptF_deleting plan fresh s
+
+theorem deleting_claims_nothing_new (c : CPod) : claimDecision true c = .keep ∨ claimDecision true c = .ignore :=
+  claimDecision_deleting c
+
+theorem deleting_claim_pass_silent (plan : List Fault) (fresh : Fresh) (pods : List CPod) (tr : Tr) :
+    (claimPodsF plan true fresh pods tr).tr = tr ∧ (claimPodsF plan true fresh pods tr).failed = false ∧
+    (claimPodsF plan true fresh pods tr).canAdopt = none ∧
+    ∀ c ∈ (claimPodsF plan true fresh pods tr).claimed, c ∈ pods ∧ claimDecision true c = .keep :=
+  claimPodsF_deleting plan fresh pods tr
+
+theorem deleting_no_pod_action (h : Hashing) (i : SyncIn) (plan : List Fault) (hd : i.view.deleting = true) :
+    (syncF h i plan).acts = [] :=
+  syncF_deleting_acts h i plan hd
+
+/-- the whole log of a sync of a deleting set: revision listing, revision bookkeeping of the set's own records
+    (renumbering a listed revision, creating the update revision, the reads that go with them, deleting own history) and
+    the status update. No `patch:` entry, no pod or claim entry. The store afterwards: the old one with numbers changed or
+    one own revision added, minus truncated own history. -/
+theorem deleting_log_and_store (h : Hashing) (i : SyncIn) (plan : List Fault) (hd : i.view.deleting = true) :
+    (∃ st2, Resolved i.store st2 ∧ ∀ x ∈ (syncF h i plan).store, x ∈ st2) ∧
+    ∀ e ∈ (syncF h i plan).log,
+      e = "list:revs" ∨ GetRevEntry (sortRevs (listRevisions i.store)) e ∨ e = "updatestatus" ∨
+      (∃ r ∈ sortRevs (listRevisions i.store), r.owner = .self ∧ e = s!"delete:rev:{r.name}") :=
+  syncF_deleting_structure h i plan hd
+
+/-- no ControllerRevision is adopted, released or relabelled: every revision of the final store that bears the name of an
+    input revision has that revision's owner, selector match, marker and data -/
+theorem deleting_store_keeps (h : Hashing) (i : SyncIn) (plan : List Fault) (hd : i.view.deleting = true)
+    (hnd : StoreNamesOk i) :
+    ∀ r ∈ i.store, ∀ x ∈ (syncF h i plan).store, x.name = r.name →
+      x.owner = r.owner ∧ x.selMatch = r.selMatch ∧ x.marker = r.marker ∧ x.data = r.data := by
+  obtain ⟨⟨st2, hres, hsub⟩, _⟩ := syncF_deleting_structure h i plan hd
+  intro r hr x hx hn
+  exact resolved_keeps hnd hres hr (hsub x hx) hn
+
+/-- **C11, deleting**: the monitor is true on the model: no pod / claim write, no `patch` of anything, and every input
+    revision still found in the store has its owner and selector match -/
+theorem C11_deleting (h : Hashing) (i : SyncIn) (plan : List Fault) (hnd : StoreNamesOk i) :
+    C11deleting i (syncF h i plan).observe = true :=
+  C11deleting_holds h i plan hnd
+
+/-! ## (3) a pause is lossless -/
+
+/-- applying the effects of a paused sync to the world changes no API object: revision store, stored status, collision
+    count, template, spec are as before; only the two derived fields are normalised (the view's copy of
+    `status.currentReplicas` is refreshed from the stored status, the pod list is re-sorted and re-indexed, as after every
+    sync) -/
+theorem paused_sync_changes_nothing (h : Hashing) (i : SyncIn) (plan : List Fault) (hp : i.paused = true) :
+    applySync i plan (syncF h i plan) =
+      { i with view := { i.view with stCurrentReplicas := i.stored.current }, pods := reindex (sortPods i.pods) } :=
+  applySync_paused h i plan hp
+
+/-- on a world in normal form a paused sync is the identity -/
+theorem paused_sync_identity (h : Hashing) (i : SyncIn) (plan : List Fault) (hp : i.paused = true)
+    (hv : i.view.stCurrentReplicas = i.stored.current) (hpods : reindex (sortPods i.pods) = i.pods) :
+    applySync i plan (syncF h i plan) = i :=
+  applySync_paused_id h i plan hp hv hpods
+
+/-- one round (settle; sync) of a paused world: no write, outcome ok, still paused, and the API state afterwards is the
+    settled one (caches caught up, terminating pods gone, pods Ready — none of it the controller's doing): store, stored
+    status, collision count and template untouched, pods = the settled pods re-sorted. Un-pausing therefore resumes from
+    exactly the API state an unpaused controller would have found. -/
+theorem paused_round (h : Hashing) (i : SyncIn) (plan : List Fault) (hp : i.paused = true) :
+    (round h i plan).2.writes = 0 ∧ (round h i plan).2.out = "ok" ∧
+    (round h i plan).1.paused = true ∧
+    (round h i plan).1.store = i.store ∧ (round h i plan).1.stored = i.stored ∧
+    (round h i plan).1.collisionCount = i.collisionCount ∧ (round h i plan).1.template = i.template ∧
+    (round h i plan).1.pods = reindex (sortPods (settle i).pods) :=
+  round_paused h i plan hp
+
+/-! ## non-vacuity
+
+`exDel`: a set being deleted with everything there is to tempt it: an orphan pod that matches, a controlled pod that no
+longer matches, an orphan revision, a template change (so the update revision is created), replicas 2 with one pod. -/
+private def exH : Hashing := { nameOf := fun d c => s!"web-{d}{c}", hashNumOf := fun _ _ => none }
+private def exPod (id : Nat) (ord : Int) : Pod :=
+  { id := id, ord := ord, phase := .running, ready := true, terminating := false, rev := "web-a", idOk := true, stOk := true }
+private def exDel : SyncIn :=
+  { setName := "web", paused := false, selectorOk := true
+    view := { replicas := some 2, slots := [], parallel := true, strat := .rolling, ru := some (some 0), deleting := true,
+              generation := 2, stCurrentReplicas := 1 }
+    stored := {}, collisionCount := none, historyLimit := some 0, template := "b"
+    fresh := { gone := false, uidOk := true, deleting := true }
+    store := [{ name := "web-a", number := 1, ctime := 0, data := "a", hashNum := none, owner := .self, selMatch := true, marker := false },
+              { name := "web-o", number := 2, ctime := 0, data := "o", hashNum := none, owner := .none, selMatch := true, marker := true }]
+    pods := [ { name := "web-0", pod := exPod 0 0, owner := .self, selMatch := true, member := true },
+              { name := "web-1", pod := exPod 1 1, owner := .none, selMatch := true, member := true },
+              { name := "web-5", pod := exPod 2 5, owner := .self, selMatch := false, member := true } ] }
+
+example : exDel.view.deleting = true ∧ StoreNamesOk exDel := ⟨rfl, by unfold StoreNamesOk; decide⟩
+example : (syncF exH exDel []).log = ["list:revs", "list:revs", "create:rev:web-b0", "updatestatus"] := by decide
+example : ((syncF exH exDel []).store.map (fun r => (r.name, r.owner))) =
+    [("web-a", .self), ("web-b0", .self), ("web-o", .none)] := by decide
+
+/-- a paused set in the same situation -/
+private def exPaused : SyncIn := { exDel with paused := true }
+example : (syncF exH exPaused [{ key := "list:revs", occ := 0, kind := .other }]).log = [] := by decide
+
+/-! `StoreNamesOk` is necessary for the monitor: two stored revisions named `a` with different owners. The set is paused
+    (so the store is certainly untouched), yet the monitor, looking the second one up by name, finds the first. -/
+private def exDup : SyncIn :=
+  { exPaused with
+    store := [{ name := "a", number := 1, ctime := 0, data := "a", hashNum := none, owner := .self, selMatch := true, marker := false },
+              { name := "a", number := 2, ctime := 0, data := "a", hashNum := none, owner := .none, selMatch := true, marker := false }] }
+example : C11deleting exDup (syncF exH exDup []).observe = false := by decide
 
 end Asts.C11
